@@ -226,7 +226,7 @@ CHECKS['C19'] = {
              'thorough': [J('c19_pcap.cpp', ['LEN=8'], wall=700, markers=(1, 2, 3))]},
     'bounds': {'quick': '1-2 UDP datagrams (1-3 symbolic bytes, both directions) and one TCP connection carrying 5 symbolic bytes in segments of 4 and 1 bytes with each of the first two segments passed or dropped (retransmissions of first and non-first segments), then closed; '
                         'node A directly on the network or behind a NAT placed in front of the dropping hop; network latency 1 ms, 1.5 s or 4295 s (timestamps across a second boundary and beyond 2^32 microseconds); the capture is re-read by an independent parser: file header, one record per probe-observed transmission in order, timestamps, lengths, '
-                        'IPv4/UDP/TCP header fields, sequence numbers, payload bytes',
+                        'IPv4/UDP/TCP header fields, sequence numbers, payload bytes; one further datagram sent from a timer at 1.234567 ms (a UDP record at a time that is not a whole millisecond, in between the TCP records)',
                'thorough': '8 TCP bytes'},
     'outside': ['IPv6 traffic (the property is about IPv4)', 'several connections', 'more records than ~12'],
     'assumptions': ['std::fstream is modelled: bytes written through ostream::write are appended to an engine-side file; the native replay reads the real file'],
